@@ -1,6 +1,6 @@
 #!/bin/bash
 # Runs every seeded change (seeded/<id>/patch.diff) and every mutant (mutants/<cNN>_*.patch) against the quick check
-# of its property in scratch copies of /repo; prints "<id> DETECTED|MISSED|ERROR".  usage: tools/run_seeded.sh [seeded|mutants|all] [parallelism]
+# of its property in scratch copies of /repo; prints "<id> DETECTED|MISSED|ERROR".  usage: [SEED_ONLY=<regex on id>] tools/run_seeded.sh [seeded|mutants|all] [parallelism]
 cd "$(dirname "$0")/.."
 what="${1:-all}"; par="${2:-4}"
 one() {
@@ -17,4 +17,4 @@ export -f one
 {
   if [ "$what" != "mutants" ]; then for s in seeded/C*; do id=$(basename $s); echo "$id ${id%%-*} $PWD/$s/patch.diff"; done; fi
   if [ "$what" != "seeded" ]; then for m in mutants/c*.patch; do b=$(basename $m .patch); p=$(echo ${b%%_*} | tr c C); echo "$b $p $PWD/$m"; done; fi
-} | xargs -P "$par" -L 1 bash -c 'one "$0" "$1" "$2"' | sort
+} | grep -E "${SEED_ONLY:-.}" | xargs -P "$par" -L 1 bash -c 'one "$0" "$1" "$2"' | sort
